@@ -6,7 +6,7 @@ OPS = ['EMPLACE_BACK', 'POP_BACK', 'ERASE', 'AT', 'AT_CONST', 'INSERT_RV', 'INSE
        'COPY_CTOR', 'MOVE_CTOR', 'COPY_ASSIGN', 'MOVE_ASSIGN', 'LIST_ASSIGN', 'CTOR_ITERABLE', 'INDEX_WRITE', 'USE_MOVED_FROM', 'REVERSE_ADAPTOR', 'EMPLACE_POS_ALIAS']
 NEVER_RAISES = {'COPY_CTOR', 'MOVE_CTOR', 'COPY_ASSIGN', 'MOVE_ASSIGN', 'LIST_ASSIGN', 'INDEX_WRITE', 'REVERSE_ADAPTOR'}
 TRACKED_OPS = {0: 'emplace_back', 1: 'push_back(const&)', 2: 'erase', 3: 'emplace(pos)', 4: 'copy-construct', 5: 'move-construct', 6: 'copy-assign',
-               7: 'move-assign', 8: 'pop_back', 9: 'insert(&&)'}
+               7: 'move-assign', 8: 'pop_back', 9: 'insert(&&)', 10: 'emplace(pos) with a throwing element constructor', 11: 'emplace_back with a throwing element constructor'}
 
 
 def step_profile(capmax):
@@ -50,8 +50,8 @@ def fv_unit(prop, tier):
                                 'capacity': '0..%d symbolic' % scap, 'arguments_indices': 'symbolic'}))
     if prop == 'C06':
         for op, nm in TRACKED_OPS.items():
-            w = ['operation returns'] + (['an element copy/move threw in the middle of the operation'] if op not in (5, 7, 8) else [])
-            qs.append(Query('tracked_' + nm.replace('(', '_').replace(')', '').replace('&', 'ref').replace('-', '_'),
+            w = ['operation returns'] + (['an element copy/move threw in the middle of the operation'] if op not in (5, 7, 8, 10, 11) else [])
+            qs.append(Query('tracked_' + nm.replace('(', '_').replace(')', '').replace('&', 'ref').replace('-', '_').replace(' ', '_'),
                             ['-DMODE_TRACKED', '-DTOP=%d' % op, '-DTHRMAX=%d' % (5 if th else 4), '-DCAPMAX=%d' % capmax], w, unwind=2, hardcap=capmax + 10, est_gb=3,
                             profile=[[capmax, capmax, 1, 1, 0], [capmax, capmax, 0, 0, 2], [capmax, 2, 0, 1, 1], [0, 0, 0, 0, 0], [1, 1, 0, 0, 3], [capmax, capmax - 1, 0, 0, 4], [2, 2, 1, 0, 0]],
                             sample={'mode': 'instance-counting element type; the k-th element copy/move of the operation throws (k symbolic, 0 = never)', 'operation': nm}))
